@@ -15,13 +15,15 @@ import subprocess
 import vlib
 from vlib import cN, cB, cL, cP, cO, cS
 
-IMPORTS = "From PKO Require Import Collector.\nFrom PKOCorr Require Import C13Corr."
+IMPORTS = "From PKO Require Import Collector Structure.\nFrom PKOCorr Require Import C13Corr."
 
 ID_GETFILE = "C13 template output order-dependent: getFile reads a path written by another template"
 ID_KEYS = "C13 template output order-dependent: sprig keys/values return Go map iteration order"
 ID_INSERT = ("C13 render outcome order-dependent: a template output named *.gotmpl is inserted into the "
              "file map while it is ranged over")
 ID_NONDET = "C13 repeated renders of an unchanged package differ"
+ID_STRUCT = "C13 structure loader drops or adds files of the rendered package"
+ID_LOADERS = "C13 Load() and LoadComponent() hand over different files or renders for the same component"
 ID_CTX = "C13 rendering mutates the render context (config) / repeated renders with the same context differ"
 ID_COLLECT = "C13 collected phases lose, duplicate, misplace, reorder or mislabel objects"
 ID_EXPECT = "C13 rendered phases differ from the objects the package contains"
@@ -86,6 +88,17 @@ PHASE_POOL = ["crds", "namespace", "rbac", "config", "deploy", "hooks", "pre", "
 PATH_POOL = ["a.yaml", "a-b.yaml", "a/b.yaml", "a/b/c.yaml", "a/b-c.yaml", "a!b.yaml", "a0.yaml", "ab.yaml",
              "a.yml", "b.yaml", "b/a.yaml", "a/a.yaml", "A.yaml", "z.yaml", "a b.yaml", "a/b/c/d.yaml",
              "a/b.yml", "a.b/c.yaml", "a-b/c.yaml", "ä.yaml", "b/_b.yaml", "_a.yaml", "a/z.yaml", "0.yaml"]
+# names that share a prefix with a reserved folder or file name without being it, case variants,
+# names with trailing dots, dot files and dot folders (skipped by the importer)
+ADV_POOL = ["components.yaml", "components-x/a.yaml", "componentsfoo/b.yaml", "Components/a.yaml", "COMPONENTS/x/a.yaml",
+            "component/a/b.yaml", "components./a.yaml", "componentss/x/y.yaml", "components.yml", "components_/a.yaml",
+            "manifest.yaml.d/a.yaml", "Manifest.yaml", "manifest.lock.yaml.yaml", "manifest-x.yaml", "x/manifest.yaml",
+            "manifest.yaml.yaml", "a./b.yaml", "a/b.yaml./c.yaml", "a/components/x/y.yaml",
+            ".test-fixtures-x/a.yaml", ".hidden.yaml", "a/.x/b.yaml", "a/b/.c.yaml"]
+# only where the package has no components of its own: the folder is an ordinary one then
+ADV_SINGLE = ["components/x/a.yaml", "components/a.yaml", "components/x/y/z.yaml"]
+INERT = ["manifest.yaml.bak", "components.txt", "componentsfoo", "manifest.lock", ".components/a.yaml", "Components"]
+COMPONENT_NAMES = ["backend", "back", "backend-x", "frontend", "db", "Backend"]
 KINDS = [("v1", "ConfigMap"), ("v1", "Secret"), ("v1", "ServiceAccount"), ("apps/v1", "Deployment"),
          ("v1", "Service")]
 EXTRA_ANNOS = ["example.com/owner", "note", "app.kubernetes.io/managed-by", "package-operator.run/other"]
@@ -333,10 +346,12 @@ def glob_match(glob, path):
     return glob == path
 
 
-def gen_package(r, ctx, mname, pname, names, allow_paths=True):
+def gen_package(r, ctx, mname, pname, names, allow_paths=True, multi_root=False):
     """One (sub-)package: files, the manifest phases and the expected phases."""
     phases = r.sample(PHASE_POOL, r.randint(1, 4))
     paths = r.sample(PATH_POOL, r.randint(1, 8))
+    if r.random() < (0.9 if multi_root else 0.45):
+        paths += r.sample(ADV_POOL + ([] if multi_root else ADV_SINGLE), r.randint(1, 3))
     images = r.random() < 0.3
     files, per_file = {}, {}
     any_tmpl = False
@@ -346,7 +361,8 @@ def gen_package(r, ctx, mname, pname, names, allow_paths=True):
         any_tmpl |= templated
         files[p + (".gotmpl" if templated else "")] = content
         base = p.rsplit("/", 1)[-1]
-        per_file[p] = [] if base.startswith("_") else exp
+        hidden = any(seg.startswith(".") for seg in p.split("/"))   # never imported (fs.go walker)
+        per_file[p] = [] if base.startswith("_") or hidden else exp
     if r.random() < 0.35:
         mfiles, mper = gen_mutator(r, ctx, phases, pname)
         files.update(mfiles)
@@ -357,6 +373,10 @@ def gen_package(r, ctx, mname, pname, names, allow_paths=True):
         files["files/static.txt"] = "static content\n"
     if r.random() < 0.4:
         files[r.choice(["README.md", "docs/notes.txt", "a/NOTES"])] = "not an object file: {{ now }}\n"
+    if r.random() < 0.3:
+        p = r.choice(INERT)
+        if not (multi_root and p == "Components") and not any(k == p or k.startswith(p + "/") for k in files):
+            files[p] = "inert: {{ now }}\n"
     cond_paths = []
     if allow_paths and r.random() < 0.35:
         for _ in range(r.randint(1, 2)):
@@ -504,11 +524,46 @@ def witness_packages():
     return ws
 
 
+def structure_packages():
+    """A fixed multi-component package whose root carries files and folders that merely start like the
+    reserved names, with component names that are prefixes of each other; rendered as root and as
+    each component."""
+    root_man = manifest_text("app", ["one", "two"], None, [], False, True)
+
+    def exp(mname, *objs):
+        common = {L_PACKAGE: mname, L_INSTANCE: "inst"}
+        out = {}
+        for phase, name in objs:
+            out.setdefault(phase, []).append({"id": "ConfigMap//" + name, "annos": {}, "labels": dict(common),
+                                              "collision": "", "condmap": False})
+        return [{"name": ph, "objs": out[ph]} for ph in ("one", "two") if ph in out]
+
+    files = {
+        "manifest.yaml": root_man, "configuration.yaml": cm("configuration", "one", "k", "v"),
+        "components.yaml": cm("components-file", "one", "k", "v"),
+        "components-shared/rbac.yaml": cm("shared-rbac", "two", "k", "v"),
+        "componentsconfig/a.yaml.gotmpl": cm("cc-{{ .package.metadata.name }}", "two", "k", "v"),
+        "Components/a.yaml": cm("upper", "one", "k", "v"),
+        "manifest.yaml.d/x.yaml": cm("mdir", "one", "k", "v"),
+        ".test-fixtures-x/a.yaml": cm("never-imported", "one", "k", "v"),
+        "manifest.yaml.bak": "inert\n",
+    }
+    for c in ("back", "backend", "backend-x"):
+        files["components/%s/manifest.yaml" % c] = manifest_text(c, ["one", "two"], None, [], False, False)
+        files["components/%s/%s.yaml" % (c, c)] = cm("own-" + c, "one", "k", "v")
+        files["components/%s/components.yaml" % c] = cm("cfile-" + c, "two", "k", "v")
+    out = [("", exp("app", ("one", "upper"), ("one", "components-file"), ("two", "shared-rbac"), ("two", "cc-inst"),
+                    ("one", "configuration"), ("one", "mdir")))]
+    for c in ("back", "backend", "backend-x"):
+        out.append((c, exp(c, ("one", "own-" + c), ("two", "cfile-" + c))))
+    return files, out
+
+
 def harness_scenario(files, component, pname, config, env, reps, deploy_reps):
     return {"files": files, "component": component,
             "package": {"name": pname, "namespace": "ns-" + pname, "labels": {"l": "1"}, "annotations": {},
                         "image": "quay.io/verif/pkg:v1"},
-            "config": config, "environment": env, "reps": reps, "deploy_reps": deploy_reps}
+            "config": config, "environment": env, "reps": reps, "deploy_reps": deploy_reps, "via_fs": True}
 
 
 def gen(seed, tier):
@@ -516,9 +571,14 @@ def gen(seed, tier):
     n, reps, dreps, wreps = (60, 20, 3, 200) if tier == "quick" else (600, 50, 5, 400)
     scs = []
     for cls, files, cfg, expected in witness_packages():
-        scs.append({"class": cls, "expected": expected, "expect_err": None,
+        scs.append({"class": cls, "expected": expected, "expect_err": None, "multi": False,
                     "harness": harness_scenario(files, "", "inst", cfg, {"kubernetes": {"version": "v1.29.0"}},
                                                 wreps, dreps)})
+    sfiles, variants = structure_packages()
+    for component, expected in variants:
+        scs.append({"class": "structure:" + (component or "root"), "expected": expected, "expect_err": None, "multi": True,
+                    "harness": harness_scenario(sfiles, component, "inst", {}, {"kubernetes": {"version": "v1.29.0"}},
+                                                reps, dreps)})
     defects = sorted(DEFECTS)
     for i in range(n):
         ctx = Ctx(r)
@@ -526,30 +586,31 @@ def gen(seed, tier):
         names = []
         kind = r.random()
         mname = "pkg%d" % i
-        files, phases, expected = gen_package(r, ctx, mname, pname, names, allow_paths=kind >= 0.28)
+        multi = 0.28 <= kind < 0.46
+        files, phases, expected = gen_package(r, ctx, mname, pname, names, allow_paths=kind >= 0.28, multi_root=multi)
         component = ""
-        if 0.28 <= kind < 0.43:
+        if multi:
             # multi-component package; render the root or one of the components
             mpath = "manifest.yaml" if "manifest.yaml" in files else "manifest.yml"
             files[mpath] = files[mpath].replace("  phases:\n", "  components: {}\n  phases:\n", 1)
             comps = {}
-            for cname in r.sample(["backend", "frontend", "db"], r.randint(1, 2)):
+            for cname in r.sample(COMPONENT_NAMES, r.randint(1, 3)):
                 cf, _, cexp = gen_package(r, ctx, cname, pname, names)
                 comps[cname] = cexp
                 for p, c in cf.items():
                     files["components/%s/%s" % (cname, p)] = c
-            if r.random() < 0.6:
+            if r.random() < 0.5:
                 component = r.choice(sorted(comps))
                 expected = comps[component]
         cfg = ctx.config()
-        sc = {"class": "valid", "expected": expected, "expect_err": None}
+        sc = {"class": "valid", "expected": expected, "expect_err": None, "multi": multi}
         if kind < 0.16:
             defect = defects[i % len(defects)] if r.random() < 0.7 else r.choice(defects)
             inject(r, defect, files, cfg)
-            sc = {"class": "defect:" + defect, "expected": None, "expect_err": DEFECTS[defect]}
+            sc = {"class": "defect:" + defect, "expected": None, "expect_err": DEFECTS[defect], "multi": False}
         elif kind < 0.28:
             mutate(r, files)
-            sc = {"class": "malformed", "expected": None, "expect_err": None}
+            sc = {"class": "malformed", "expected": None, "expect_err": None, "multi": None}
         elif component or "components: {}" in files.get("manifest.yaml", files.get("manifest.yml", "")):
             sc["class"] = "valid:component" if component else "valid:multi-root"
         sc["harness"] = harness_scenario(files, component, pname, cfg, ctx.environment(), reps, dreps)
@@ -612,8 +673,20 @@ def tcase_term(g):
               cL([cP(cN(pid(p)), cN(pid(p[:-len(TEMPLATE_SUFFIX)]))) for p in tm_all]), fl(after))
 
 
-JUDGE = ("(fun ct => let '(c, t) := ct in let '(s, (i, u, o), e) := c in "
-         "(agree c, monitor c, monitor (s, (true, true, o), e), expect_ok c, tagree t))")
+def spath_term(p):
+    return cL([cL([cN(b) for b in seg.encode()]) for seg in p.split("/")])
+
+
+def scase_term(sc, g):
+    """What the loader was given (the scenario's paths) and what it handed to the renderer."""
+    comp = sc["harness"]["component"]
+    return cP(cB(bool(sc.get("multi"))), cO(cL([cN(b) for b in comp.encode()]) if comp else None),
+              cL([spath_term(p) for p in sorted(sc["harness"]["files"])]),
+              cL([spath_term(p) for p in sorted(g["files_before"] or {})]))
+
+
+JUDGE = ("(fun cts => let '(c, t, st) := cts in let '(s, (i, u, o), e) := c in "
+         "(agree c, monitor c, monitor (s, (true, true, o), e), expect_ok c, tagree t, sagree st))")
 
 
 def nondet_identity(cls):
@@ -703,7 +776,7 @@ def check(run, tier, seed, replay=None):
     scs = [s for s in scs if isinstance(s, dict) and "harness" in s]
     outs = vlib.run_harness("render", [s["harness"] for s in scs], par=8)
     terms, where = [], []
-    renders = 0
+    renders = rejected_only = 0
     for i, (sc, o) in enumerate(zip(scs, outs)):
         cls = sc["class"]
         if "obs" not in o:
@@ -716,6 +789,7 @@ def check(run, tier, seed, replay=None):
         renders += obs["reps"] + obs["deploy_reps"]
         groups = obs["groups"]
         rendered = [g for g in groups if not g["err"]]
+        rejected_only += 0 if rendered else 1
         errs = sorted({g["err"] for g in groups if g["err"]})
         if any(e.startswith("harness-") or e.startswith("scenario-") for e in errs):
             run.violation("corr:C13/harness could not observe the collection stage", slim(sc, obs), False)
@@ -731,6 +805,13 @@ def check(run, tier, seed, replay=None):
                 run.violation("corr:C13/rejected for another reason than the generator intended", slim(sc, obs), False)
         elif sc["expected"] is not None and errs:
             run.violation("corr:C13/valid generated package is rejected", slim(sc, obs), False)
+        vl = obs.get("via_load")
+        if vl and rendered and not errs and sc.get("multi") is not None:
+            if vl["err"]:
+                run.violation("corr:C13/Load() refuses a package LoadComponent() renders", dict(slim(sc, obs), via_load=vl), False)
+            elif any(vl["files"] != (g["files_before"] or {}) for g in rendered) or \
+                    vl["json_sha256"] not in {g["json_sha256"] for g in rendered}:
+                run.violation(ID_LOADERS, dict(slim(sc, obs), via_load=vl), True)
         key = (cls, len(rendered[0]["manifest_phases"]) if rendered else 0,
                tuple(f["path"] for f in rendered[0]["files"]) if rendered else (),
                sum(len(p["objs"]) for p in rendered[0]["phases"]) if rendered else 0, tuple(errs))
@@ -742,16 +823,20 @@ def check(run, tier, seed, replay=None):
                 run.violation("corr:C13/case outside the model's hypotheses", slim(sc, obs), False)
                 continue
             g["pname"] = sc["harness"]["package"]["name"]
-            terms.append(cP(case_term(g, obs["all_identical"], obs["ctx_unchanged"], sc["expected"]), tcase_term(g)))
+            terms.append(cP(case_term(g, obs["all_identical"], obs["ctx_unchanged"], sc["expected"]), tcase_term(g),
+                            scase_term(sc, g)))
             where.append((i, g))
-    res, logs = vlib.judge_cases("C13", IMPORTS, JUDGE, terms, 5, shard=60)
+    res, logs = vlib.judge_cases("C13", IMPORTS, JUDGE, terms, 6, shard=60)
     for l in logs:
         run.violation("corr:C13/coq-eval", {"correspondence": "coq evaluation failed", "log": l}, False)
     for (i, g), r in zip(where, res):
         if r is None:
             continue
         sc, obs = scs[i], outs[i]["obs"]
-        agree, mon, mon_ident, exp_ok, tagree = r
+        agree, mon, mon_ident, exp_ok, tagree, sagree = r
+        if not sagree and sc.get("multi") is not None:
+            run.violation(ID_STRUCT, dict(slim(sc, obs), files_before=sorted(g["files_before"] or {}),
+                                          component=sc["harness"]["component"], multi=sc.get("multi")), True)
         if not tagree:
             run.violation("corr:C13/template stage model and implementation differ",
                           dict(slim(sc, obs), correspondence="C13Corr.tagree", files_before=g["files_before"],
@@ -767,17 +852,18 @@ def check(run, tier, seed, replay=None):
         if not agree:
             run.violation("corr:C13/collector model and implementation differ",
                           dict(slim(sc, obs), correspondence="C13Corr.agree"), False)
-    run.cov["evaluations"] = len(terms) + 1
+    run.cov["evaluations"] = len(terms) + rejected_only + 1
     run.cov["packages"] = len(scs)
     run.cov["renders"] = renders
     run.cov["rule"] = (
         "fixed corpus first (the getFile / keys-values / double-suffix packages that were order-dependent before "
         "10a6940 and 514b770), then structured random packages (1-4 phases, 1-8 object files from a pool of "
-        "sort-order-stressing paths, 1-3 documents each, ~45%% templates with helpers/include/guards/range/getFile of static "
+        "sort-order-stressing paths plus adversarial names sharing a prefix with reserved folder/file names, case variants, "
+        "trailing dots, dot files/folders; imported with the real FromFS and loaded with LoadComponent and with Load, 1-3 documents each, ~45%% templates with helpers/include/guards/range/getFile of static "
         "files, ~35%% with templates that write to .config (set/unset/merge/append) read back by another template and by CEL "
-        "conditions, CEL condition annotations, conditional paths, images from a lock file, ~15%% multi-component), ~16%% with one "
+        "conditions, CEL condition annotations, conditional paths, images from a lock file, ~18%% multi-component with prefix-related component names), ~16%% with one "
         "injected defect and a known rejection class, ~12%% byte-damaged; each rendered N times from fresh file maps but with ONE render "
-        "context object (digest compared before/after) through the deployer's sequence, plus the real Deploy; one evaluation = one distinct observation judged in Coq, +1 for the function "
+        "context object (digest compared before/after) through the deployer's sequence, plus the real Deploy; one evaluation = one distinct observation judged in Coq or one rejected package checked against its rejection class, +1 for the function "
         "table sweep over %d names; non-trivial = at least two parsed objects or a classified rejection; distinct = (class, "
         "phase count, object paths, collected objects, rejection classes)" % nfuncs)
     run.cov["samples"] = [slim(scs[i], outs[i].get("obs")) for i in (0, min(6, len(scs) - 1), len(scs) - 1)][:3]
